@@ -123,7 +123,7 @@ class Session:
         if self.desync and key.split("/")[0] in ("ns", "replica", "route"):
             self.stats["suppressed_after_desync"] += 1
             return
-        self.viol.append((key, str(detail)[:600]))
+        self.viol.append((self.key_prefix + key, str(detail)[:600]))
 
     def sig(self, *parts):
         self.sigs.add(parts)
@@ -665,6 +665,7 @@ class Session:
         c.done[k] = p
 
     inject_active = False
+    key_prefix = ""
     tolerate_unknown_forwards = False
 
     def _refusal_plausible(self, p, code):
@@ -907,8 +908,8 @@ class Session:
                 if getattr(p, "ambiguous", False):
                     continue
                 if p.state == "sent":
-                    if p.hold:
-                        continue
+                    if p.hold or self.alloc_faults:
+                        continue        # under an allocation fault "at most one response" is all that is demanded
                     self.v("rpc/request-not-answered", "%s on %s: %s" % (p.method, c.name, _j(p.params)[:200]))
                     p.hold = True
                 elif p.state == "forwarded":
@@ -919,7 +920,7 @@ class Session:
                         due = "owner gone"
                     elif p.deadline is not None and self.now >= p.deadline:
                         due = "deadline passed"
-                    if due and not p.hold:
+                    if due and not p.hold and not self.alloc_faults:
                         p.hold = True
                         self.v("route/no-final-answer", "%s (%s) for %s" % (due, p.method, _j(p.params)[:160]))
             for f in c.fetches.values():
